@@ -20,6 +20,9 @@ def scan(mod, res=None):
             loc = mod.loc(ins.dbg)
             sites.append({'fn': name, 'kind': kind, 'align': a, 'guarantee': g, 'origin': sorted(o) if o else None,
                           'loc': loc, 'width': wname, 'ins': ins})
+        for ins, kind, need, g, desc in rules.escape_sites(mod, fn, pf):
+            sites.append({'fn': name, 'kind': kind, 'align': need, 'guarantee': g, 'origin': ['escape'],
+                          'loc': mod.loc(ins.dbg), 'width': desc, 'ins': ins})
     return sites
 
 
@@ -42,10 +45,14 @@ def run(ctx, tier, res, tag=''):
             fileb = (FC.rel(loc[0]) if loc else '?').split('/')[-1]
             k = (fileb, s['fn'], s['kind'], s['width'])
             per_fn_ord[k] = per_fn_ord.get(k, 0) + 1
-            key = '%s:%s:%s:%s#%d' % (fileb, s['fn'], s['kind'], s['width'], per_fn_ord[k])
-            res.violation(key + tag,
-                          '%s: %s of %s assumes %d-byte alignment, but the address comes from %s whose declared type only promises %d'
-                          % (where, s['kind'], s['width'], s['align'], '/'.join(s['origin'] or ['?']), s['guarantee']))
+            key = '%s:%s:%s:%s#%d' % (fileb, s['fn'], s['kind'], s['width'].replace(' ', '_'), per_fn_ord[k])
+            if s['kind'] in ('argument', 'stored-pointer', 'returned-pointer'):
+                res.violation(key + tag, '%s: %s promises %d-byte alignment to its user, but the pointer\'s provenance only guarantees %d'
+                              % (where, s['width'], s['align'], s['guarantee']))
+            else:
+                res.violation(key + tag,
+                              '%s: %s of %s assumes %d-byte alignment, but the address comes from %s whose declared type only promises %d'
+                              % (where, s['kind'], s['width'], s['align'], '/'.join(s['origin'] or ['?']), s['guarantee']))
         else:
             res.ok()
     res.count('of which through caller-supplied pointers' + tag, n_wire)
